@@ -3,7 +3,7 @@
 
   Hand-written mirror of the *code's* case analysis (not of what the code should do):
     TreeNode.unrooted_deepcopy / rooted_at / rooted_with_tip   (l.1539-1600)
-    TreeNode.unrooted                                           (l.1568-1583)
+    TreeNode.unrooted                                           (l.1568-1591)
     TreeNode._sorted / sorted                                   (l.1068-1104)
     TreeNode._get_sub_tree / get_sub_tree                       (l.937-1039)
     PhyloNode._get_distances / get_distances                    (l.1947-2018)
@@ -121,26 +121,17 @@ def rootedWithTip (t : PTree K) (nm : String) : Except TErr (PTree K) :=
       | none => .error .treeError
       | some r => .ok r
 
-/-! ## `unrooted` (as coded) -/
-/-- `if sib.length is not None and oldnode.length is not None: sib.length += oldnode.length` -/
+/-! ## `unrooted` (core/tree.py l.1568-1591, as repaired by commit 4e5465d45)
+
+When the root has fewer than 3 children the first child with children is removed and its
+children are promoted in its place, keeping their lengths; the removed stem edge's length is
+added to the *other* children of the root (at most one, since there were fewer than 3), when
+both lengths are present. -/
+/-- `if sister.length is not None and collapsed.length is not None: sister.length += collapsed.length` -/
 def addLen [Add K] : Option K → Option K → Option K
   | some a, some b => some (a + b)
   | a, _ => a
 
-def unrootedGo [Add K] : Bool → List (PTree K) → List (PTree K)
-  | _, [] => []
-  | need, c :: cs =>
-    if need && !c.children.isEmpty then
-      c.children.map (fun s => PTree.node s.name (addLen s.len c.len) s.children) ++ unrootedGo false cs
-    else c :: unrootedGo need cs
-
-def unrooted [Add K] : PTree K → PTree K
-  | .node n l cs => .node n l (unrootedGo (decide (cs.length < 3)) cs)
-
-/-! ## `unrooted` as repaired by `fixes/C09-unrooted-sister-edge.patch`
-
-The children of the collapsed node keep their lengths; the removed stem edge's length goes
-onto the *other* children of the root (at most one, since the root has fewer than 3). -/
 def splitFirstInternal : List (PTree K) → Option (List (PTree K) × PTree K × List (PTree K))
   | [] => none
   | c :: cs =>
@@ -153,17 +144,13 @@ def splitFirstInternal : List (PTree K) → Option (List (PTree K) × PTree K ×
 def bumpLen [Add K] (extra : Option K) (s : PTree K) : PTree K :=
   PTree.node s.name (addLen s.len extra) s.children
 
-def unrootedFixed [Add K] : PTree K → PTree K
+def unrooted [Add K] : PTree K → PTree K
   | .node n l cs =>
     if cs.length < 3 then
       match splitFirstInternal cs with
       | none => .node n l cs
       | some (pre, x, post) => .node n l (pre.map (bumpLen x.len) ++ x.children ++ post.map (bumpLen x.len))
     else .node n l cs
-
-/-- the implementation's `unrooted` (`fixed = false`) or the repaired one -/
-def unrootedWith [Add K] (fixed : Bool) (t : PTree K) : PTree K :=
-  if fixed then unrootedFixed t else unrooted t
 
 /-! ## `sorted` -/
 def insertStr (x : String) : List String → List String
@@ -227,7 +214,7 @@ def subL [Add K] [Zero K] [DecidableEq K] (inc : List String) (tipsonly : Bool) 
 end
 
 def getSubTree [Add K] [Zero K] [DecidableEq K] (t : PTree K) (names : List String)
-    (ignoreMissing keepRoot tipsonly : Bool) (fixed : Bool := false) : Except TErr (PTree K) :=
+    (ignoreMissing keepRoot tipsonly : Bool) : Except TErr (PTree K) :=
   let known := if tipsonly then tips t else allNames t
   if !ignoreMissing && names.any (fun n => !known.contains n) then .error .valueError
   else
@@ -238,7 +225,7 @@ def getSubTree [Add K] [Zero K] [DecidableEq K] (t : PTree K) (names : List Stri
       else
         -- `new_tree.name = "root"`; name_loaded is left as it was
         let r := PTree.node (if r.name = "" then "" else "root") r.len r.children
-        .ok (if t.children.length > 2 then unrootedWith fixed r else r)
+        .ok (if t.children.length > 2 then unrooted r else r)
 
 /-! ## distances: `_get_distances`
 
